@@ -25,6 +25,10 @@ func init() {
 
 func runC05(c *eng.Ctx) {
 	p := c.P
+	// (shared with C01) what recovery reads back is what the append assigned: offsets and positions come from the segment
+	// that is written, resolved under the lock that excludes a roll
+	c.Rule("R01.1", "K5")
+	ruleOffsetIdentity(c)
 	// ---- R05.1
 	c.Rule("R05.1", "K2")
 	ruleLogThenIndex(c)
